@@ -1357,6 +1357,7 @@ func spaces(tier string) []kit.Space {
 			Describe: sd.describe,
 		})
 	}
+	out = append(out, typedSpace(), callSpace())
 	return out
 }
 
@@ -1382,6 +1383,10 @@ func main() {
 			"HTML: text, textarea, comment, attributes of each quoting, URL/srcset attributes, tag, script string/code/comment, JSON, style string/code); the hole is the first show (the second shows a benign value) or the second (the first shows one of 12 fixed values ending or starting with newline(s), space, tab, backslash, quote, <, backquote); " +
 			"payloads there also include values with a separator at ONE end (z\\n, \\nz, z\\n\\n, ' z', 'z ', z\\t, z\\, z\", z', z<, z`); extra oracle: what follows the first value renders as it does after a benign first value. " +
 			"A failure that also happens with the other show replaced by text is reported under the plain key, otherwise under the key + ' two-shows ...'. " +
+			"typed-body-after-block = bodies lexed in the context of a declared result type in a file of ANOTHER format: result type {css, js, json, html, markdown} x host file {html, md} x form of the show in the body (code, strings of each quoting, attributes, ...) x nested block statement " +
+			"{none, raw, raw with marker, if, if-else, for, for-range, switch, select, show-using of the same type, show-using of another type, nested macro of another type, if(raw), for(if), if(show-using)} x delivery {macro with the value as parameter, macro showing the global, show-using body} x show {before, inside, after the block, after two blocks} x payload; " +
+			"oracle: the show has the same lexer context and the document renders exactly as <host text> + (the body with the blocks replaced by what they render, as a file of the result type's format) + <host text>. " +
+			"two-result-call-shows = {{ f(a) }} with f a native function returning (string|html|int|any|Stringer|[]string, error) x 46 places of html, css, js, json, md and txt files x {direct, in a macro, in an if block, two such shows in a row} x payload; oracle: renders exactly as the same document showing a variable of that type with that value. " +
 			"Each document is built once per value type and run with the benign value and with the payload (bare, and as z+payload+z for the separators newline/space/equals; for every payload in the thorough tier except html/direct/string). " +
 			"Non-trivial = the template builds and the benign rendering holds the value in exactly one reference token (and, in JavaScript, no lexical error precedes it), so the payload rendering is really compared token by token; the other cases are classes skipped:*",
 		Assumptions: []string{
